@@ -37,7 +37,8 @@ Qed.
 Definition target (o : op) : option nat :=
   match o with
   | OSetColKind t _ _ | OSetCol t _ _ | OSetColFromCol t _ _ _ | OSetCell t _ _ _
-  | OSetLength t _ | ODelRows t _ | ODelCol t _ | ORename t _ _ _ | OSetSorted t _ => Some t
+  | OSetLength t _ | ODelRows t _ | ODelCol t _ | ORename t _ _ _ | OSetSorted t _
+  | OSetColFromSlice t _ _ _ => Some t
   | _ => None
   end.
 
@@ -448,6 +449,18 @@ Proof.
   - (* OSetSorted *)
     destruct (get w t) as [tb|] eqn:E; cbn [fst]; [|assumption].
     apply wwf_put; [assumption|]. exact (wwf_get _ _ _ Hw E).
+  - (* OSetColFromSlice *)
+    destruct (get w t) as [tb|] eqn:E; cbn [fst]; [|assumption].
+    assert (Ht : twf tb) by (eapply wwf_get; eassumption).
+    destruct (slot_of tb name2) as [s|]; cbn [fst]; [|assumption].
+    destruct (all_some (map (norm_index (nrows tb)) l)) as [ps|]; cbn [fst]; [|assumption].
+    destruct (negb (Nat.eqb (List.length ps) (nrows tb))) eqn:En; cbn [fst]; [assumption|].
+    apply negb_false_iff, Nat.eqb_eq in En.
+    destruct (take_pos ps (scells s)) as [cs|] eqn:Ec; cbn [fst]; [|assumption].
+    pose proof (add_slot_wf tb {| skind := skind s; scells := cs |} Ht) as Ha. cbn [scells] in Ha.
+    rewrite (take_pos_length _ _ _ Ec) in Ha. specialize (Ha En). destruct Ha as (Hw1 & Hb & _).
+    destruct (add_slot tb _) as [t1 i]. cbn [fst snd] in *.
+    apply wwf_put; [assumption|]. apply bind_name_wf; assumption.
 Qed.
 
 Theorem run_wf ops : forall w, wwf w -> wwf (run ops w).
